@@ -23,4 +23,30 @@ def chunked_trailers(case):
     return re.search(rb"\r\n[ \t]*\+?0+[ \t]*(;[^\r]*)?\r\n(?!\r\n)[^\r]", s) is not None
 
 
-CLASSES = {"chunked_trailers": chunked_trailers}
+def torn_chunk(case):
+    """The first request of the stream has a chunked body in which some chunk's payload is not followed
+    by CR LF (a malformed chunk terminator)."""
+    s = _stream(case)
+    e = s.find(b"\r\n\r\n")
+    if e < 0 or b"transfer-encoding" not in s[:e].lower():
+        return False
+    p = e + 4
+    while True:
+        le = s.find(b"\r\n", p)
+        if le < 0:
+            return False
+        m = re.match(rb"^[ \t]*\+?([0-9a-fA-F]+)", s[p:le])
+        if not m:
+            return False
+        n = int(m.group(1), 16)
+        p = le + 2
+        if n == 0:
+            return False
+        if p + n > len(s):
+            return False
+        if s[p + n:p + n + 2] != b"\r\n":
+            return len(s) >= p + n + 1
+        p += n + 2
+
+
+CLASSES = {"chunked_trailers": chunked_trailers, "torn_chunk": torn_chunk}
